@@ -5,6 +5,7 @@ CONSTANTS
   Mode = "udp"
   WithHist = FALSE
   MaxG = 1
+  GenLen = 0
   DEV = "none"
 INVARIANTS TypeOK OneReply CtxNotEarly
 PROPERTIES ReplyLive ListenerEnds ReadLive
